@@ -2,6 +2,7 @@ import EinoV.Basic.JsonUtil
 import EinoV.Model.C11
 import EinoV.Model.C11Paths
 import EinoV.Model.C11Late
+import EinoV.Model.C11Loop
 import EinoV.Expected.C11
 
 /-
@@ -30,9 +31,17 @@ import EinoV.Expected.C11
    "levels":[{"s":bool,"par":i|-1,"depth":d}…],          -- graph levels, pre-order (parents first)
    "prog":[{"l":lvl,"g":gid,"op":opspec}…],              -- the state operations / local steps of a
                                                          --   sequential nest of graphs, execution order
-   "cuts":[{"p":pos,"active":[lvl…],"mod":D|null}…]}     -- interrupt before prog[p]; the levels active
+   "cuts":[{"p":pos,"active":[lvl…],"inst":[run instance per active level],"mod":D|null,
+            "subs":[{"g":gid,"l":lvl,"r":inst,"pre":opspec|null}…]}…]}   -- interrupt before prog[p]; the levels active
                                                          --   there (outermost first); resumed with the
-                                                         --   modifier ctr[0] += D*(depth+1), or without
+                                                         --   modifier ctr[0] += D*(depth+1), or without;
+                                                         --   subs: the graph nodes restored as interrupted
+                                                         --   nested graphs (checkpoint SkipPreHandler entry)
+  prog entries may carry "r": the run instance of level l they belong to (a nested graph inside a cycle
+  is run once per iteration: a new instance gets a freshly generated state); a pre-handler entry
+  ("w":"pre") of a node restored at the last cut of its level's instance is a LATER execution of that
+  node: it runs iff `skipsPre Expected.skipPrePerTask true k` is false; at the cut itself the restored
+  execution runs its pre-handler iff `skipsPre … 0` is false (Model/C11Loop.lean)
   → {"out":v,"err":null|"no-state","cells":[{"ctr","seq","order"}…],"vis":[cell|null…],
      "touched":[[cell…]…],"atCut":[[{"l","ctr","seq","order"}…]…]}
   (`resumePath` / `visible` with the Expected resume facts decide which cell a level works on
@@ -288,6 +297,7 @@ def chainOp (st : ChainSt) (l g : Nat) (j : Json) : JE ChainSt := do
   match (← J.str j "o") with
   | "tag" => do let t ← J.str j "t"; pure (if st.err.isSome then st else { st with v := st.v ++ "|" ++ t })
   | "const" => do let t := J.strD j "v" ""; pure (if st.err.isSome then st else { st with v := t })
+  | "enter" => pure st   -- a nested graph starts a run (its entry's "r" is the new run instance)
   | "stamp" => do
     let tag ← J.str j "tag"
     pure <| onCell st l fun s v =>
@@ -307,7 +317,8 @@ def handleChain (c : Json) : JE Json := do
   let prog ← J.arr c "prog"
   let cuts ← (← J.arr c "cuts").mapM fun cj => do
     let modD := match (J.fieldD cj "mod" Json.null).getNat? with | .ok n => some n | .error _ => none
-    pure ((← J.nat cj "p"), (← J.natList cj "active"), modD)
+    let inst := (J.arrD cj "inst").map fun x => (x.getNat?.toOption).getD 0
+    pure ((← J.nat cj "p"), (← J.natList cj "active"), modD, J.arrD cj "subs", inst)
   let fresh : StL := ⟨List.replicate ctrs 0, 0, []⟩
   let n := levels.length
   let mut st : ChainSt :=
@@ -317,9 +328,22 @@ def handleChain (c : Json) : JE Json := do
   let mut pos := 0
   -- levels whose resume decided what they see (sticky for the rest of the run)
   let mut decided : List (Nat × Seen StL) := []
+  -- the run instance of every level; the nodes restored as interrupted nested graphs at the last
+  -- cut of their level's instance: (gid, level, instance, executions seen since)
+  let mut curRun : List Nat := List.replicate n 0
+  let mut marks : List (Nat × Nat × Nat × Nat) := []
   for pj in prog ++ [Json.null] do
-    for (p, active, modD) in cuts do
+    for (p, active, modD, subs, inst) in cuts do
       if p == pos then
+        -- an active level that has just been entered anew (no operation of the new run yet)
+        for (l, r) in active.zip inst do
+          if curRun.getD l 0 != r then
+            curRun := curRun.set l r
+            marks := marks.filter fun m => m.2.1 != l
+            decided := decided.filter (·.1 != l)
+            let dec := decided
+            st := { st with cells := st.cells.set l fresh,
+                            vis := visOf levels (fun i => (dec.find? (·.1 == i)).map (·.2)) }
         -- interrupt here: checkpoint every active level, then resume
         let lv : List (Option (StL → StL) × Option StL) := active.map fun l =>
           let depth := (levels[l]?.map (·.depth)).getD 0
@@ -340,8 +364,42 @@ def handleChain (c : Json) : JE Json := do
           | .inherited => pure ()
         let dec := decided
         st := { st with vis := visOf levels (fun i => (dec.find? (·.1 == i)).map (·.2)) }
+        -- the resumed levels get the skip marks of their new checkpoints
+        marks := marks.filter fun m => !active.contains m.2.1
+        for sj in subs do
+          let g ← J.nat sj "g"
+          let l ← J.nat sj "l"
+          marks := marks ++ [(g, l, J.natD sj "r" 0, 0)]
+          -- the restored execution itself: its pre-handler ran before the interrupt
+          if !skipsPre Expected.C11.skipPrePerTask true 0 then
+            match J.fieldD sj "pre" Json.null with
+            | .null => pure ()
+            | pre => st ← chainOp st l g pre
     if pj != Json.null then
-      st ← chainOp st (← J.nat pj "l") (← J.nat pj "g") (← J.field pj "op")
+      let l ← J.nat pj "l"
+      let g ← J.nat pj "g"
+      let r := J.natD pj "r" 0
+      if curRun.getD l 0 != r then
+        -- a new run of level l (a cycle of an enclosing level came back to it): a graph that
+        -- declares state gets a freshly generated one, nothing of the old run's resume applies
+        curRun := curRun.set l r
+        marks := marks.filter fun m => m.2.1 != l
+        decided := decided.filter (·.1 != l)
+        let dec := decided
+        st := { st with cells := st.cells.set l fresh,
+                        vis := visOf levels (fun i => (dec.find? (·.1 == i)).map (·.2)) }
+      let op ← J.field pj "op"
+      let isPre := J.strD op "o" "" == "stamp" && J.strD op "w" "" == "pre"
+      let mut skip := false
+      if isPre then
+        match marks.find? (fun m => m.1 == g && m.2.2.1 == r) with
+        | some m =>
+          let k := m.2.2.2 + 1
+          marks := marks.map fun x => if x.1 == g && x.2.2.1 == r then (x.1, x.2.1, x.2.2.1, k) else x
+          skip := skipsPre Expected.C11.skipPrePerTask true k
+        | none => pure ()
+      if !skip then
+        st ← chainOp st l g op
     pos := pos + 1
   pure <| Json.mkObj [
     ("out", Json.str st.v),
